@@ -123,7 +123,7 @@ impl Property for C10 {
     }
 
     fn required_classes(_tier: Tier) -> Vec<&'static str> {
-        vec!["form:onefile", "form:twofiles", "form:noconcat", "form:concat", "form:concat-of-concats", "form:prefix", "form:prefix+concat", "form:identity-first", "form:prefix-external", "extra-place:1", "extra-place:2", "extra-packs:2", "prefix:JbkLookalike", "prefix:Elf"]
+        vec!["form:onefile", "form:twofiles", "form:noconcat", "form:concat", "form:concat-of-concats", "form:prefix", "form:prefix+concat", "form:identity-first", "form:reconcat-after-duplicate", "form:prefix-external", "extra-place:1", "extra-place:2", "extra-packs:2", "prefix:JbkLookalike", "prefix:Elf"]
     }
 
     fn case_timeout_s(_tier: Tier) -> u64 {
@@ -213,6 +213,30 @@ impl Property for C10 {
             let _ = std::fs::remove_file(&ob);
             evals += open_and_verify(&oall, model, "concat-of-concats")?;
             info.class("form:concat-of-concats");
+        }
+        // 3b. concat applied to its own output when a pack was given twice on the way: a partial
+        // concat, then the same first file again plus the missing last one, then concat of that
+        if files.len() >= 2 {
+            let n = files.len();
+            let pa = cdir.join("dup-part.jbk");
+            let p2 = cdir.join("dup-full2.jbk");
+            let p3dir = ctx.subdir("c10-reconcat");
+            let p3 = p3dir.join("all.jbk");
+            let u = |p: &PathBuf| jbk::Utf8PathBuf::from_path_buf(p.clone()).unwrap();
+            if let Err(e) = jbk::tools::concat(&files[..n - 1], u(&pa)) {
+                fail!("concat-error", "partial concat: {e}");
+            }
+            if let Err(e) = jbk::tools::concat(&[&pa, &files[0], &files[n - 1]], u(&p2)) {
+                fail!("concat-error", "concat with a pack given twice: {e}");
+            }
+            let _ = std::fs::remove_file(&pa);
+            evals += open_and_verify(&p2, model, "concat-with-duplicate")?;
+            if let Err(e) = jbk::tools::concat(&[&p2], u(&p3)) {
+                fail!("concat-error", "concat of a concat output holding a pack twice: {e}");
+            }
+            let _ = std::fs::remove_file(&p2);
+            evals += open_and_verify(&p3, model, "reconcat-after-duplicate")?;
+            info.class("form:reconcat-after-duplicate");
         }
         // 4. one-file container behind a prefix. Extra packs stay in their own files: copy them along.
         {
